@@ -17,6 +17,8 @@ from gunicorn import util  # noqa: E402
 from engine.stubs.recsock import RecSock  # noqa: E402
 from engine.stubs import workers as W  # noqa: E402
 
+from harness.lex import resp_lex, resp_lex_smt  # noqa: E402,F401  (z3-direct obligation C09.lex_smt)
+
 W.install_clock()
 
 PROPERTY = "C09"
@@ -308,4 +310,8 @@ OBLIGATIONS = [
                                               "bytes on the wire = the pieces joined and latin-1 encoded"),
     Ob("C09.second_call", "second_call", timeout=300,
        bound="second start_response(exc_info) before/after the head was sent; 0..2 headers in each call incl. Content-Length"),
+    Ob("C09.lex_smt", "resp_lex", smt="resp_lex_smt", timeout=300,
+       bound="strings of ANY length over code points 0..0x2FFFF: what the regex gates of start_response / process_headers (pattern and "
+             "applied method read from the source) let through == RFC 9110 token (names) / HTAB SP VCHAR obs-text (values, status "
+             "after '200 '); z3 regex inclusion both ways, models replayed through the real start_response + send_headers"),
 ]
